@@ -435,7 +435,13 @@ func c12Run(w *verifrt.World, tier Tier) *RunResult {
 		b, ok := c12RunVariant(sc, 1, res)
 		if ok {
 			res.count("model_checked", 1)
-			for id, sel := range b {
+			var bIDs []int
+			for id := range b {
+				bIDs = append(bIDs, id)
+			}
+			sort.Ints(bIDs) // fixed order: the first differing rule names the fingerprint
+			for _, id := range bIDs {
+				sel := b[id]
 				r := byID[id]
 				var want [][3]string
 				for _, tr := range sel {
@@ -495,7 +501,12 @@ func c12Run(w *verifrt.World, tier Tier) *RunResult {
 				break
 			}
 			bad := false
+			var aIDs []int
 			for id := range a {
+				aIDs = append(aIDs, id)
+			}
+			sort.Ints(aIDs)
+			for _, id := range aIDs {
 				if !reflect.DeepEqual(sortTriples(a[id]), sortTriples(p[id])) {
 					res.fail("C12", "order-dependent-value", feature(id), "rule %d saw %q under canonical map order and %q under a permuted order\n%s\nrequest: %s", id, sortTriples(a[id]), sortTriples(p[id]), sc.text(0), sc.URI)
 					bad = true
